@@ -46,6 +46,67 @@ theorem constructor_path (H : List PyTy) (hP : progsOK E bad H = true) (hC : cls
 
 end LspVerif
 
+/-! ### what `nrel` means for a reader: nothing the input declares with a non-null value disappears -/
+
+namespace LspVerif
+
+theorem relFields_mem {r : PyTy → Json → Json → Bool} {a b : List (Name × Json)} :
+    ∀ (fs : List Field), relFields r a b fs = true → ∀ f ∈ fs,
+      (match Json.lookup a f.wireS, Json.lookup b f.wireS with
+       | some x, some y => r f.ty x y
+       | Option.none, some y => y.isNull && !f.omitU
+       | some x, Option.none => x.isNull && f.omitU
+       | Option.none, Option.none => true) = true
+  | [], _, _, hf => by simp at hf
+  | g :: gs, h, f, hf => by
+    simp only [relFields, Bool.and_eq_true] at h
+    rcases List.mem_cons.mp hf with rfl | hm
+    · exact h.1
+    · exact relFields_mem gs h.2 f hm
+
+/-- **No loss.**  If `j'` is related to `j` at a class by the null rule, every member of `j` whose value is not `null` is a declared
+    property of the class, is present in `j'`, and its value there is related to the original one (equal, for scalars). -/
+theorem nrel_keeps (E : Env) (k : Nat) (c : Name) (a b : List (Name × Json)) (h : nrel E k (.cls c) (.obj a) (.obj b) = true)
+    (key : Name) (x : Json) (hl : Json.lookup a key = some x) (hx : x.isNull = false) :
+    ∃ cl f y, E.pkg.findCls c = some cl ∧ f ∈ cl.fields ∧ f.wireS = key ∧ Json.lookup b key = some y ∧ ∃ k', nrel E k' f.ty x y = true := by
+  cases k with
+  | zero => simp [nrel] at h
+  | succ k =>
+    unfold nrel at h
+    simp only at h
+    cases hc : E.pkg.findCls c with
+    | none => simp [hc] at h
+    | some cl =>
+      simp only [hc, Bool.and_eq_true] at h
+      obtain ⟨⟨⟨⟨_, hdecl⟩, _⟩, _⟩, hrel⟩ := h
+      obtain ⟨k0, hm, hk0⟩ := lookup_mem' a key x hl
+      have hd := List.all_eq_true.mp hdecl (k0, x) hm
+      simp only [List.any_eq_true, beq_iff_eq] at hd
+      obtain ⟨f, hf, hfw⟩ := hd
+      have hfk : f.wireS = key := by rw [hfw]; exact hk0
+      have hcl := relFields_mem cl.fields hrel f hf
+      rw [hfk, hl] at hcl
+      cases hy : Json.lookup b key with
+      | none =>
+        simp only [hy, Bool.and_eq_true] at hcl
+        rw [hx] at hcl
+        exact absurd hcl.1 (by simp)
+      | some y =>
+        simp only [hy] at hcl
+        exact ⟨cl, f, y, rfl, hf, hfk, rfl, k, hcl⟩
+
+/-- scalars, enums, literals and uninterpreted JSON come back exactly -/
+theorem nrel_scalar_eq (E : Env) (k : Nat) (ty : PyTy) (j j' : Json)
+    (hty : (match ty with | .cls _ | .seq _ | .dict _ _ | .tuple _ | .union _ => false | _ => true) = true)
+    (h : nrel E k ty j j' = true) : j' = j := by
+  cases k with
+  | zero => simp [nrel] at h
+  | succ k =>
+    unfold nrel at h
+    cases ty <;> simp at hty <;> exact (Json.beq_eq _ _ h).symm
+
+end LspVerif
+
 /-! ### the same, over metamodel-valid values (Props/Link.lean) -/
 
 namespace LspVerif
@@ -155,5 +216,28 @@ theorem Checked.roundtrip_notification {H : List PyTy} (c : Checked M E bad H) {
   cases hcl : E.pkg.findCls e.req with
   | none => simp [hcl] at hc
   | some cl => exact c.of_reading (c.light_of_findCls hcl) ⟨v, k, hr⟩
+
+/-- **C01's last sentence as a corollary**: for a value that round-trips at a class, the re-serialised object contains every
+    member of the input whose value is not `null`, under the same key, with a value related to the original (equal for scalars). -/
+theorem RoundTrips.no_loss {E : Env} {bad : List PyTy} {c : Name} {kvs : List (Name × Json)} (h : RoundTrips E bad (.cls c) (.obj kvs)) :
+    ∃ v' out, (∃ m, structTy E m (.cls c) (.obj kvs) = .ok v') ∧ (∃ m, unstruct E m Option.none v' = .ok (.obj out)) ∧
+      ∀ key x, Json.lookup kvs key = some x → x.isNull = false →
+        ∃ y, Json.lookup out key = some y ∧ ∃ (f : Field) (k' : Nat), f.wireS = key ∧ nrel E k' f.ty x y = true := by
+  obtain ⟨v', hs, _, _, ⟨j', m, hu, k, hk⟩⟩ := h
+  cases k with
+  | zero => simp [nrel] at hk
+  | succ k =>
+    have hk0 := hk
+    unfold nrel at hk
+    simp only at hk
+    cases hc : E.pkg.findCls c with
+    | none => simp [hc] at hk
+    | some cl =>
+      cases j' <;> try (simp [hc] at hk; done)
+      rename_i out
+      refine ⟨v', out, hs, ⟨m, hu⟩, ?_⟩
+      intro key x hl hx
+      obtain ⟨_, f, y, _, _, hfk, hy, k', hr⟩ := nrel_keeps E (k + 1) c kvs out hk0 key x hl hx
+      exact ⟨y, hy, f, k', hfk, hr⟩
 
 end LspVerif
